@@ -55,6 +55,7 @@ type ReplayCase struct {
 type ViolGroup struct {
 	Sig   string
 	Count int
+	More  []ReplayCase // further instances (other jobs) tried if the first does not reproduce
 	First ReplayCase
 	Kind  string
 	Label string
